@@ -160,6 +160,24 @@ C16_Responses_Step ==
             \E x \in dst'.ids : x.iri = dev'.resp.iris[i] /\
               ~\E old \in dst.attests : old.id = x.id /\ old.a = dev'.m.attestor
 
+\* a successful message has anchored (attested, registered) EVERY piece of data it names:
+\* "the block time of the first anchoring" is the block time of the first successful
+\* message that names the data, so none may be skipped silently
+C16_Effect_Step ==
+  LET Anchored(iri) == \E x \in dst'.ids : x.iri = iri /\ \E a \in dst'.anchors : a.id = x.id
+  IN
+  /\ (dev'.ok /\ dev'.type = "Anchor") => Anchored(dev'.m.iri)
+  /\ (dev'.ok /\ dev'.type = "Attest") =>
+       \A i \in DOMAIN dev'.m.iris :
+         /\ Anchored(dev'.m.iris[i])
+         /\ \E x \in dst'.ids : x.iri = dev'.m.iris[i] /\
+              \E t \in dst'.attests : t.id = x.id /\ t.a = dev'.m.attestor
+  /\ (dev'.ok /\ dev'.type = "RegisterResolver") =>
+       \A i \in DOMAIN dev'.m.iris :
+         /\ Anchored(dev'.m.iris[i])
+         /\ \E x \in dst'.ids : x.iri = dev'.m.iris[i] /\
+              \E r \in dst'.dres : r.id = x.id /\ r.rid = dev'.m.rid
+
 \* only a resolver's manager registers data to a non-public resolver
 C16_ManagerOnly_Step ==
   (dev'.ok /\ dev'.type = "RegisterResolver") =>
@@ -176,6 +194,7 @@ C16_Stable_Prop      == [][C16_Stable_Step]_dvars
 C16_FirstTime_Prop   == [][C16_FirstTime_Step]_dvars
 C16_Responses_Prop   == [][C16_Responses_Step]_dvars
 C16_ManagerOnly_Prop == [][C16_ManagerOnly_Step]_dvars
+C16_Effect_Prop      == [][C16_Effect_Step]_dvars
 C16_Footprint_Prop   == [][C16_Footprint_Step]_dvars
 
 
